@@ -5,6 +5,7 @@ import (
 	"fmt"
 	"math"
 	"reflect"
+	"strings"
 	"time"
 )
 
@@ -140,10 +141,12 @@ func JSONEqual(a, b any) bool {
 }
 
 // DeepCopy copies a value so that it shares no memory with the original
-// (slices keep their capacity)
+// (slices keep their capacity, string data is cloned)
 func DeepCopy(v reflect.Value) reflect.Value {
 	out := reflect.New(v.Type()).Elem()
 	switch v.Kind() {
+	case reflect.String:
+		out.SetString(strings.Clone(v.String()))
 	case reflect.Slice:
 		if v.IsNil() {
 			return out
@@ -192,6 +195,10 @@ func DeepCopy(v reflect.Value) reflect.Value {
 
 func copyJSON(v any) any {
 	switch x := v.(type) {
+	case string:
+		return strings.Clone(x)
+	case json.Number:
+		return json.Number(strings.Clone(string(x)))
 	case []any:
 		if x == nil {
 			return x
@@ -207,7 +214,7 @@ func copyJSON(v any) any {
 		}
 		o := make(map[string]any, len(x))
 		for k, e := range x {
-			o[k] = copyJSON(e)
+			o[strings.Clone(k)] = copyJSON(e)
 		}
 		return o
 	}
